@@ -13,6 +13,7 @@ opts (all optional):
   flags: (state, log) initialisation flags of the observed call on a never-simulated model; error_tol: passed to simulate();
   presim_back: number of earlier backward_simulate() calls on the same object (presim_back_rev=False: with reverse_log_information=False);
   presim_queries: after the earlier runs all read-only helpers (get_*_list, extract_*, chart/network data, print_*) are called once;
+  alloc_fault: [k, n] -> an earlier run is aborted inside the allocation of step k (the n-th can_add_resources call of that step raises); the observed run continues it;
   resume_via_json: with resume_from, the stopped project is written to JSON, read into a new project and continued there.
 """
 import traceback
@@ -174,7 +175,29 @@ def run(spec, opts=None, model=None, call=None):
         fault=opts.get("fault"),
     )
     try:
-        if opts.get("resume_from") is not None:
+        if opts.get("alloc_fault") is not None:
+            # the observed run continues a run that was aborted in the middle of the allocation of step k: the n-th eligibility question
+            # (BaseTask.can_add_resources) of that step raised; state and logs are kept as the abort left them
+            from pDESy.model.base_task import BaseTask
+
+            k_, n_ = opts["alloc_fault"]
+            orig, cnt, proj = BaseTask.can_add_resources, [0], ex.m.project
+
+            def _faulty(self, *a, **kw):
+                if proj.time == k_:
+                    cnt[0] += 1
+                    if cnt[0] == n_:
+                        raise InjectedFault("injected in the allocation of step %d (question %d)" % (k_, n_))
+                return orig(self, *a, **kw)
+
+            BaseTask.can_add_resources = _faulty
+            try:
+                ex.m.project.simulate(**sim_kwargs(opts))
+            except InjectedFault:
+                pass
+            finally:
+                BaseTask.can_add_resources = orig
+        elif opts.get("resume_from") is not None:
             # the observed run continues a run that was stopped at step resume_from (state and logs kept)
             ex.m.project.simulate(**dict(sim_kwargs(opts), max_time=opts["resume_from"]))
             if opts.get("resume_via_json"):
@@ -217,7 +240,7 @@ def run(spec, opts=None, model=None, call=None):
             call(ex.m.project)
         else:
             kw = sim_kwargs(opts)
-            if opts.get("resume_from") is not None:
+            if opts.get("resume_from") is not None or opts.get("alloc_fault") is not None:
                 fl = opts.get("restart_flags") or (False, False)
                 kw.update(initialize_state_info=bool(fl[0]), initialize_log_info=bool(fl[1]))
                 if fl[0] and not fl[1]:
